@@ -440,6 +440,7 @@ def run(ctx):
             if w == "c" and prv not in ("*", "c"): return False                                 # a qualifier elsewhere is a specifier
             if w == "b" and (nxt != "" or ";" in t[:j]): return False                           # K&R parameter declarations; text after a definition
             if w == "x" and prv in ("x", ")", "]", "3"): return False                           # juxtaposed identifiers: typedef-name guesses
+            if w == "x" and nxt in ("*", "x", "c"): return False                                # an identifier in front of a declarator: a typedef name
             if w == "x" and prv == "," and t[:j].count("(") > t[:j].count(")"): return False     # an identifier as a whole parameter: a typedef name
             if w == "s" and j and prv not in ("s", "typedef", "(", ","): return False            # a specifier after a declarator token
             if w == "typedef" and j and prv not in ("s", "typedef"): return False
@@ -602,7 +603,10 @@ def run(ctx):
                 and not any(t[j] == "T" and not (0 < j < len(t) - 1 and t[j - 1] == "(" and t[j + 1] == ")") for j in range(len(t)))
                 and not any(t[j] == "AmpersandAmpersandToken" and (j == 0 or t[j - 1] not in XEND) for j in range(len(t)))
                 # `( T )` directly after the `(` of a header or before `{` would be a parenthesised type name / compound literal
-                and not any(t[j] == "T" and j + 2 < len(t) and t[j + 2] == "{" for j in range(len(t)))]
+                and not any(t[j] == "T" and j + 2 < len(t) and t[j + 2] == "{" for j in range(len(t)))
+                # a label stands where a statement begins (after `)` it might follow a cast: left out); `goto *e;` is GNU's computed goto
+                and not any(t[j] == "L" and j + 1 < len(t) and t[j + 1] == ":" and j and t[j - 1] not in (";", "{", "}", "else", "do", ":", "d") for j in range(len(t)))
+                and not any(t[j] == "goto" and not (j + 1 < len(t) and t[j + 1] == "L") for j in range(len(t)))]
     bstrings = [list(x) for x in dict.fromkeys(tuple(t) for t in bstrings)]
 
     def render_b(toks):
